@@ -34,7 +34,7 @@ FILES = ["insights/parsr/__init__.py", "insights/parsr/examples/json_parser.py",
 # ------------------------------------------------------------------ grammar terms (json-able)
 LEAVES = [["char", "a"], ["char", "b"], ["inset", "ab"], ["string", "ab"], ["lit", "ab"], ["ilit", "ab"], ["ilit", "Ab"], ["eof"]]
 UNARY = [["many", 0], ["many", 1], ["many", 2], ["opt"], ["map"]]
-BINARY = ["seq", "choice", "keepleft", "keepright", "followedby", "notfollowedby", "until", "lift"]
+BINARY = ["seq", "choice", "keepleft", "keepright", "followedby", "notfollowedby", "until", "lift", "sepby"]
 
 
 def consumes(t):
@@ -90,6 +90,8 @@ def build(t):
         return a / b
     if k == "until":
         return a.until(b)
+    if k == "sepby":
+        return a.sep_by(b)
     if k == "lift":
         return P.Lift(lambda x, y: ("lifted", x, y)) * a * b
     raise ValueError(t)
@@ -180,6 +182,26 @@ class RefPEG(object):
                 p = r[0]
                 out.append(r[1])
             return (p, out)
+        if k == "sepby":
+            # an optional first element, then (separator element) as often as both match: a list of the elements
+            out = []
+            p = pos
+            r = self.run(a, p)
+            if r is not FAIL:
+                p = r[0]
+                out.append(r[1])
+            while True:
+                rs = self.run(b, p)
+                if rs is FAIL:
+                    break
+                r = self.run(a, rs[0])
+                if r is FAIL:
+                    break
+                if r[0] == p:
+                    raise RuntimeError("non-consuming repetition in generated term")
+                p = r[0]
+                out.append(r[1])
+            return (p, out)
         ra = self.run(a, pos)
         if ra is FAIL:
             return FAIL
@@ -243,6 +265,8 @@ def terms_depth1():
             for y in LEAVES:
                 if b == "until" and not consumes(x):
                     continue
+                if b == "sepby" and not (consumes(x) or consumes(y)):
+                    continue
                 out.append([b, x, y])
     return out
 
@@ -274,7 +298,7 @@ def terms_depth2_binary(small):
     return out
 
 
-PRIOR_INPUTS = [None, "ab", "zz", "a"]
+PRIOR_INPUTS = [None, "ab", "zz", "a", "ba"]
 
 
 def make_peg(terms, maxlen, alphabet, prior=False):
@@ -318,6 +342,67 @@ def _show(v):
     if isinstance(v, dict):
         return "{" + ", ".join("%s: %s" % (_show(k), _show(x)) for k, x in v.items()) + "}"
     return repr(v)
+
+
+# ---- the character classes the library ships (their definition: the `string` constant named by their label)
+import string as _string  # noqa: E402
+
+TOKENS = {     # name -> (kind, set of characters); kind: "one" = exactly one character of the set, "many0" = longest prefix (list), "many1" = longest non-empty prefix (text)
+    "EOL": ("one", "\n\r"), "Digit": ("one", _string.digits), "NonZeroDigit": ("one", "123456789"), "Letter": ("one", _string.ascii_letters),
+    "WSChar": ("one", " \t\x0b\x0c"), "WS": ("many0", _string.whitespace), "Digits": ("many1", _string.digits), "Letters": ("many1", _string.ascii_letters),
+}
+
+
+def token_expect(kind, chars, cps, T):
+    """-> None (reject) or the number of characters consumed"""
+    def member(c):
+        return T(sstr.in_ranges(c, tuple(sstr._ranges(sorted(map(ord, chars))))) if not isinstance(c, int) else (chr(c) in chars))
+    n = 0
+    while n < len(cps) and member(cps[n]):
+        n += 1
+        if kind == "one":
+            break
+    if kind in ("one", "many1") and n == 0:
+        return None
+    return n
+
+
+def make_tokens(maxlen):
+    def tok(en):
+        name = sorted(TOKENS)[en.choice("token", len(TOKENS))]
+        kind, chars = TOKENS[name]
+        s = sstr.fresh_str_upto(en, "in", maxlen, None, minlen=1)        # any characters of UNIVERSE, incl. the non-ASCII space and digit characters
+        case = lambda mv: {"token": name, "input": mv.str(s)}  # noqa
+        en.note_sample(case)
+        try:
+            res = getattr(P, name)(s)
+            got = (1 if kind == "one" else len(res), res)
+        except Exception:  # noqa
+            got = None
+        exp = token_expect(kind, chars, cps_of(s), lambda f: f if isinstance(f, bool) else truth(f))
+        if exp is None:
+            en.must_hold(got is None, "peg-semantics", case, detail="%s accepted text that does not start with one of its characters" % name)
+        else:
+            en.must_hold(got is not None and got[0] == exp, "peg-semantics", case,
+                         detail="%s consumed %s characters, its character set gives %d" % (name, "no" if got is None else got[0], exp))
+    return tok
+
+
+def _native_token(case):
+    name, s = case["token"], case["input"]
+    kind, chars = TOKENS[name]
+    try:
+        res = getattr(P, name)(s)
+        got = 1 if kind == "one" else len(res)
+    except Exception:  # noqa
+        got = None
+    n = 0
+    while n < len(s) and s[n] in chars:
+        n += 1
+        if kind == "one":
+            break
+    exp = None if (kind in ("one", "many1") and n == 0) else n
+    return [] if got == exp else ["%s on %r consumed %r characters, its character set (%r) gives %r" % (name, s, got, chars, exp)]
 
 
 # ---- tag language
@@ -604,6 +689,11 @@ def obligations(tier):
                    desc="depth-2 terms: every unary combinator over every binary depth-1 term%s" % (" and every binary combinator over (depth-1 term, leaf of {Char a, String ab, EOF}) in both positions" if thorough else ""),
                    bounds={"terms": len(d2u) + (len(terms_depth2_binary([["char", "a"], ["string", "ab"], ["eof"]])) if thorough else 0), "input length": "<= %d" % (4 if thorough else 3)},
                    encoded=enc, budget_s=1500 if thorough else 300, replay="peg", check_sample=True),
+        Obligation("O1c-shipped-character-classes", make_tokens(3 if thorough else 2), ["peg-semantics"],
+                   desc="the character-class tokens the library ships (EOL, Digit, NonZeroDigit, Letter, WSChar, WS, Digits, Letters) on symbolic text of all of UNIVERSE: they consume exactly the longest prefix "
+                        "made of the characters of the `string` constant they are defined with (non-ASCII spaces and digits are not among them)",
+                   bounds={"tokens": sorted(TOKENS), "input length": "1-%d, any characters of UNIVERSE" % (3 if thorough else 2)}, encoded=[P.InSet.process, P.String.process, P.Many.process],
+                   budget_s=300 if thorough else 60, replay="peg", check_sample=True),
         Obligation("O3-taglang", make_tag(2), ["taglang"],
                    desc="tag expressions of depth <= 2 rendered with minimal or full parentheses and symbolic whitespace, evaluated on a symbolic tag-membership vector",
                    bounds={"expressions": len(tag_exprs(2)), "tags": TAGS, "whitespace": "either no whitespace at all or one symbolic whitespace char (space, tab, CR, VT, FF) in every gap and at both ends"},
@@ -637,6 +727,8 @@ def _without(ranges, cp):
 
 # ------------------------------------------------------------------ native
 def _native(case):
+    if "token" in case:
+        return _native_token(case)
     if "term" in case:
         t, s = case["term"], case["input"]
         g = build(t)
